@@ -409,7 +409,7 @@ func (c *Ctx) guardsMissing(ex excEntry, f *ssa.Function, b *ssa.BasicBlock) str
 		found := false
 		for _, bb := range gf.Blocks {
 			ifi := lastIf(bb)
-			if ifi == nil || (shape(ifi.Cond, 3) != g.cond && eraseNames(shape(ifi.Cond, 3)) != eraseNames(g.cond)) {
+			if ifi == nil || (shape(ifi.Cond, 3) != g.cond && eraseNames(shape(ifi.Cond, 3)) != eraseNames(g.cond) && eraseNamesAndPrivateFields(shape(ifi.Cond, 3)) != eraseNamesAndPrivateFields(g.cond)) {
 				continue
 			}
 			// the guard must reject: one of its edges leads (directly) to a return of a non-nil error
